@@ -130,6 +130,9 @@ _entry = st.one_of(
     st.fixed_dictionaries({"style": st.just("typed"), "type": tim.checksum_type, "value": tim.checksum_value}),
     st.fixed_dictionaries({"style": st.just("bare"), "len": _bare_len, "fill": st.sampled_from(list(HEX))}),
     st.fixed_dictionaries({"style": st.just("bare"), "len": st.sampled_from([32, 40, 64]), "fill": st.sampled_from(list(HEX))}),
+    # the right length, but no digest: "32/40/64 hex digits - and anything else rejected"
+    st.fixed_dictionaries({"style": st.just("bare"), "len": st.sampled_from([32, 40, 64]), "fill": st.sampled_from(list(HEX)),
+                           "spoil": st.sampled_from(["z", "G", "-", "_", " ", "+", "/", ".", "\u00e9", "\u0663"]), "at": st.integers(0, 63)}),
 )
 _key = st.one_of(tim.option_name, tim.ini_path.filter(lambda p: "=" not in p and ":" not in p),
                  st.sampled_from(["x86_64/os/images/boot.iso", "Server/x86_64/os/repodata/repomd.xml", "images/boot.iso", "os/images/boot.iso", "a/os/b",
@@ -151,8 +154,13 @@ def entry_text(e, i):
     if e["style"] == "typed":
         return "%s:%s" % (e["type"], e["value"])
     # distinct digits per entry so that a value leaking from another entry is visible
-    body = (e["fill"] + HEX[i % 16]) * 64
-    return body[:e["len"]]
+    body = ((e["fill"] + HEX[i % 16]) * 64)[:e["len"]]
+    if e.get("spoil"):
+        at = e["at"] % len(body)
+        if e["spoil"] == " " and at in (0, len(body) - 1):
+            at = 1          # a blank at either end is not part of the value
+        body = body[:at] + e["spoil"] + body[at + 1:]
+    return body
 
 
 def section_case(case):
@@ -163,13 +171,13 @@ def section_case(case):
         lines.append("%s = %s" % (key, text))
         if e["style"] == "typed":
             want[key] = [e["type"], e["value"]]
-        elif len(text) in (32, 40, 64):
+        elif len(text) in (32, 40, 64) and not e.get("spoil"):
             want[key] = [{32: "md5", 40: "sha1", 64: "sha256"}[len(text)], text]
         else:
             bad = True
     doc = (CURRENT_HEAD if case["format"] == "current" else OLD_HEAD) + "[checksums]\n" + "\n".join(lines) + "\n"
     ti = TreeInfo()
-    styles = set(e["style"] + (":ok" if e["style"] == "typed" or len(entry_text(e, i)) in (32, 40, 64) else ":unknown-length") for i, (k, e) in enumerate(case["entries"]))
+    styles = set(e["style"] + (":ok" if e["style"] == "typed" or (len(entry_text(e, i)) in (32, 40, 64) and not e.get("spoil")) else ":not-a-digest" if e.get("spoil") else ":unknown-length") for i, (k, e) in enumerate(case["entries"]))
     if bad:
         try:
             ti.loads(doc)
